@@ -717,6 +717,8 @@ func (r *report) runSpecial(name string) {
 	case "globals-write":
 		r.globalsWrite()
 		r.compiledStateWrites()
+	case "shared-constants":
+		r.sharedConstantCapacity()
 	default:
 		r.extraNotes = append(r.extraNotes, "unknown special analysis "+name)
 	}
